@@ -51,6 +51,7 @@ def cases(tier, seed):
     for ci, center in enumerate([(2, 2), (0, 0), (1.5, 2.5)]):
         for log in (False, True):
             yield dict(kind='ellipse', center=center, log=log, tier=tier)
+    yield dict(kind='ellipse_types')
     yield dict(kind='ellipse_refuse')
 
 
@@ -187,7 +188,15 @@ def run_high_low(c, res):
                                 x = M[i][j]
                                 keep = keep and (l < x < h)
                             exp.append(keep)
-                        check_gate_output(res, 'high_low:' + cn, what, data, full, short, exp, one)
+                        if check_gate_output(res, 'high_low:' + cn, what, data, full, short, exp, one):
+                            # the same thresholds passed by position, in the documented order (data, channels, high, low, full_output)
+                            try:
+                                posn = FlowCal.gate.high_low(data, form, hi, lo_v, True)
+                                if not np.array_equal(np.asarray(posn.mask), np.asarray(full.mask)):
+                                    res.violation('high_low:positional', '%s: thresholds passed by position (high, low) give mask %s, by keyword %s' % (
+                                        what, np.asarray(posn.mask).astype(int).tolist(), np.asarray(full.mask).astype(int).tolist()), one)
+                            except Exception as ex:
+                                res.violation('high_low:positional-raises:%s' % type(ex).__name__, '%s with positional thresholds raised %s: %s' % (what, type(ex).__name__, ex), one)
     res.sample({'gate': 'high_low', 'events': M if N else [], 'thresholds': list(TH_JSON), 'forms': [repr(f) for f in hl_forms(D, True)]})
 
 
@@ -297,6 +306,53 @@ def run_ellipse(c, res):
                 'a,b': AXES, 'theta': ANGLES})
 
 
+def run_ellipse_types(c, res):
+    """semi-axes and centre given as Python numbers and as NumPy scalars of several widths, on coordinates in the hundreds (the
+    square of a narrow integer semi-axis does not fit its type)"""
+    import FlowCal
+    pts = [(x, y) for x in range(0, 1001, 100) for y in range(0, 1001, 100)] + [(333, 512), (650, 420), (841, 500), (500, 199), (159, 500)]
+    conts = [('arr-float', np.array([[float(x), -7.0, float(y)] for x, y in pts])), ('arr-int', np.array([[x, 3, y] for x, y in pts], dtype=np.int64)),
+             ('arr-uint16', np.array([[x, 3, y] for x, y in pts], dtype=np.uint16))]
+    conv = {'int': int, 'float': float, 'u2': np.uint16, 'i2': np.int16, 'i4': np.int32, 'i8': np.int64, 'f4': np.float32, 'f8': np.float64}
+    cx, cy = 500, 500
+    for tn, cv in conv.items():
+        for a, b in ((341, 300), (300, 341), (190, 50), (255, 256)):
+            for th in (0.0, math.pi / 6, math.pi / 2):
+                for cn, data in conts:
+                    one = dict(c)
+                    what = 'ellipse(%s, channels=[0, 2], center=(%d, %d), a=%s(%d), b=%s(%d), theta=%r)' % (cn, cx, cy, tn, a, tn, b, th)
+                    try:
+                        with np.errstate(all='ignore'):
+                            full = FlowCal.gate.ellipse(data, [0, 2], center=(cv(cx), cv(cy)), a=cv(a), b=cv(b), theta=th, full_output=True)
+                            short = FlowCal.gate.ellipse(data, [0, 2], center=(cv(cx), cv(cy)), a=cv(a), b=cv(b), theta=th)
+                    except Exception as ex:
+                        res.violation('ellipse-types:raises:%s' % tn, '%s raised %s: %s' % (what, type(ex).__name__, ex), one)
+                        continue
+                    ct, st = math.cos(th), math.sin(th)
+                    exp, amb = [], []
+                    for (x, y) in pts:
+                        dx, dy = x - cx, y - cy
+                        xr, yr = ct * dx + st * dy, -st * dx + ct * dy
+                        q = (xr / a) ** 2 + (yr / b) ** 2
+                        exp.append(q <= 1)
+                        amb.append(abs(q - 1) < 1e-6)
+                    got = np.asarray(full.mask).tolist() if hasattr(full, 'mask') else []
+                    if len(got) == len(exp):
+                        exp = [g if am else e for g, e, am in zip(got, exp, amb)]
+                    if check_gate_output(res, 'ellipse-types:' + tn, what, data, full, short, exp, one):
+                        P = np.asarray(full.contour[0], dtype=float)
+                        worst = 0.0
+                        for px, py in P.tolist():
+                            dx, dy = px - cx, py - cy
+                            xr, yr = ct * dx + st * dy, -st * dx + ct * dy
+                            worst = max(worst, abs((xr / a) ** 2 + (yr / b) ** 2 - 1))
+                        if worst > 1e-4:
+                            res.violation('ellipse-types:contour:%s' % tn, '%s: contour does not trace the gate ellipse (max |q-1| = %g)' % (what, worst), one)
+                        else:
+                            res.ok('ellipse-types', True)
+    res.sample({'gate': 'ellipse', 'parameter types': sorted(conv), 'axes': [(341, 300), (300, 341), (190, 50), (255, 256)]})
+
+
 def run_ellipse_refuse(res):
     import FlowCal
     # degenerate inputs: no events, one event
@@ -333,6 +389,8 @@ def run_case(c):
             run_high_low(c, res)
         elif k == 'ellipse':
             run_ellipse(c, res)
+        elif k == 'ellipse_types':
+            run_ellipse_types(c, res)
         else:
             run_ellipse_refuse(res)
     return res
